@@ -20,12 +20,24 @@ SCHEMAS = {
                'fields': {'_agent': 'Ref[Agent]', '_config': 'Opt[Ref[BpConfig]]', '_app_name': 'Str',
                           '_contexts': 'Dict[Int, Any[secctx]]'}},
     'pkt:BlockIntegrityBlock': {'pyclass': ('bp.encoding.bpsec', 'BlockIntegrityBlock'), 'pkt': True,
-                                'fields': {'context_id': 'Int', 'targets': 'List[Int]', 'payload': 'Int'}},
+                                'fields': {'context_id': 'Int', 'targets': 'List[Int]',
+                                           'results': 'List[Pkt[TargetResultList]]', 'payload': 'Int'}},
     'pkt:BlockConfidentialityBlock': {'pyclass': ('bp.encoding.bpsec', 'BlockConfidentialityBlock'), 'pkt': True,
-                                      'fields': {'context_id': 'Int', 'targets': 'List[Int]', 'payload': 'Int'}},
+                                      'fields': {'context_id': 'Int', 'targets': 'List[Int]',
+                                                 'results': 'List[Pkt[TargetResultList]]', 'payload': 'Int'}},
+    'pkt:TargetResultList': {'pyclass': ('bp.encoding.bpsec', 'TargetResultList'), 'pkt': True,
+                             'fields': {'results': 'List[Pkt[TypeValuePair]]', 'payload': 'Int'}},
+    'pkt:TypeValuePair': {'pyclass': ('bp.encoding.bpsec', 'TypeValuePair'), 'pkt': True,
+                          'fields': {'type_code': 'Int', 'payload': 'Int'}},
+    # the COSE security context and its per-operation scratch record
+    'CoseCtx': {'pyclass': ('bp.app.bpsec', 'CoseContext'), 'fields': {'_config': 'Opt[Ref[BpConfig]]'}},
+    'SecOp': {'pyclass': ('bp.app.bpsec', 'CoseSecOpCtx'),
+              'fields': {'ctr': 'Ref[Ctr]', 'sec_blk': 'Pkt[CanonicalBlock]', 'tgt_blk': 'Opt[Pkt[CanonicalBlock]]'}},
 }
 
 GHOST = {
+    'tgt_last_failed': 'Bool',     # the last per-target verification (the cryptographic check) reported a failure
+    'tgt_any_failed': 'Bool',      # some target of the security block failed (or had not exactly one result)
     'sec_last_failed': 'Bool',     # the last context call returned a reason code or raised
     'sec_unknown': 'Bool',         # the security block looked at names a context this node has no handler for
     'sec_failed': 'Bool',          # some security block of the bundle did not verify (unknown context, code, exception)
@@ -78,7 +90,11 @@ def _step(kind, cls, meth):
         requires=[('starts_clean', 'not ghost.sec_failed', [])],
         modifies=['Ctr.actions', 'Ctr.status_reason', 'pkt:Bundle.blocks', 'Ctr._block_num', 'Ctr._last_block_num',
                   'pkt:CanonicalBlock.btsd', 'pkt:CanonicalBlock.crc_value', 'pkt:CanonicalBlock.payload',
-                  'pkt:CanonicalBlock._pcls', 'ghost.crc_ok', 'ghost.sec_last_failed', 'ghost.sec_failed', 'ghost.sec_unknown'],
+                  'pkt:CanonicalBlock._pcls', 'ghost.crc_ok', 'ghost.sec_last_failed', 'ghost.sec_failed', 'ghost.sec_unknown',
+                  # (what the COSE context's own contract lists: the write-set analysis of the loop finds it by name)
+                  'ghost.tgt_last_failed', 'ghost.tgt_any_failed', 'SecOp.ctr', 'SecOp.sec_blk', 'SecOp.tgt_blk',
+                  'pkt:BlockIntegrityBlock.targets', 'pkt:BlockIntegrityBlock.results',
+                  'pkt:BlockConfidentialityBlock.targets', 'pkt:BlockConfidentialityBlock.results'],
         locals={'failure': 'List[Int]', 'result': 'Opt[Int]'},
         loops={0: dict(
             invariant=[
@@ -118,3 +134,69 @@ _CTX_WRITES = ['pkt:Bundle.blocks', 'Ctr._block_num', 'Ctr._last_block_num', 'pk
                'pkt:CanonicalBlock.crc_value', 'pkt:CanonicalBlock.payload', 'pkt:CanonicalBlock._pcls', 'ghost.crc_ok',
                'ghost.sec_last_failed']
 NOTES = {'callback_writes': dict(_BASE_NOTES['callback_writes'], verify_bib=_CTX_WRITES, verify_bcb=_CTX_WRITES)}
+
+
+# ---- the COSE context: a security block verifies only if every one of its targets does ----------------------------
+def _ctx_block(kind, target_fn):
+    return dict(
+        self='Ref[CoseCtx]', params={'ctr': CTR, kind: 'Pkt[CanonicalBlock, %s]' % (
+            'BlockIntegrityBlock' if kind == 'bib' else 'BlockConfidentialityBlock')},
+        returns='Opt[Int]', props=['C12'],
+        requires=[('starts_clean', 'not ghost.tgt_any_failed', []),
+                  ('configured', 'self._config is not None', [])],
+        # a target block that is not in the bundle (KeyError), fewer result lists than targets (IndexError) or anything
+        # raised while reading the block's parameters escapes: the calling step counts that as a failure too
+        raises={'KeyError': dict(), 'IndexError': dict(), 'Exception': dict()},
+        modifies=['SecOp.ctr', 'SecOp.sec_blk', 'SecOp.tgt_blk', 'pkt:BlockIntegrityBlock.targets',
+                  'pkt:BlockIntegrityBlock.results', 'pkt:BlockConfidentialityBlock.targets',
+                  'pkt:BlockConfidentialityBlock.results', 'pkt:Bundle.blocks', 'Ctr._block_num', 'pkt:CanonicalBlock.btsd',
+                  'ghost.crc_ok', 'ghost.tgt_last_failed', 'ghost.tgt_any_failed'],
+        locals={'failure': 'Opt[Int]', 'accept_ix': 'List[Int]', 'one_failure': 'Opt[Int]'},
+        loops={
+            0: dict(
+                invariant=[
+                    ('verdict_so_far', '(failure is None) == (not ghost.tgt_any_failed) and '
+                                       'implies(failure is not None, unwrap(failure) >= 12 and unwrap(failure) <= 16)'),
+                ],
+                ghost_begin=['ghost.tgt_last_failed = False\n'],
+                ghost_end=['ghost.tgt_any_failed = ghost.tgt_any_failed or ghost.tgt_last_failed or '
+                           'not (length(result_list) == 1)\n'],
+            ),
+            1: dict(invariant=[('verdict_kept', '(failure is None) == (not ghost.tgt_any_failed) and '
+                                                'implies(failure is not None, unwrap(failure) >= 12 and unwrap(failure) <= 16)')]),
+        },
+        ensures=[
+            # the block verifies only if every one of its targets verified (and had exactly one result)
+            ('fails_iff_some_target_fails', 'implies(result is None, not ghost.tgt_any_failed)', ['C12']),
+            ('reports_a_reason_code', 'implies(result is not None, unwrap(result) >= 12 and unwrap(result) <= 16)', ['C12']),
+        ],
+    )
+
+
+FUNCS.update({
+    'bp.app.bpsec:CoseContext.verify_bib': _ctx_block('bib', 'verify_bib_target'),
+    'bp.app.bpsec:CoseContext.verify_bcb': _ctx_block('bcb', 'verify_bcb_target'),
+    'bp.app.bpsec:CoseSecOpCtx.check_secblk': dict(
+        self='Ref[SecOp]', returns='Bool', props=['C12'], trusted=True, modifies=[],
+        trusted_reason='duplicate-id checks over decoded parameter / result lists (set / list comprehensions over '
+                       'scapy_cbor packet lists); may raise (TypeError on a block without parameters)',
+        raises={'Exception': dict()}),
+    'bp.app.bpsec:CoseSecOpCtx.extract_secblk': dict(
+        self='Ref[SecOp]', props=['C12'], trusted=True, modifies=[],
+        trusted_reason='decodes the additional header parameters with cbor2 / pycose; raises on malformed content',
+        raises={'Exception': dict()}),
+    'bp.app.bpsec:CoseContext.verify_bib_target': dict(
+        self='Ref[CoseCtx]', params={'secop': 'Ref[SecOp]', 'result': 'Pkt[TypeValuePair]'}, returns='Opt[Int]', props=['C12'],
+        trusted=True, trusted_reason='the cryptographic check of one target (pycose / cryptography): C03; catches its '
+                                     'own exceptions and returns None (verified) or FAILED_SEC',
+        modifies=['ghost.tgt_last_failed'],
+        ensures=[('verdict', 'ghost.tgt_last_failed == (result is not None) and '
+                             'implies(result is not None, unwrap(result) >= 12 and unwrap(result) <= 16)')]),
+    'bp.app.bpsec:CoseContext.verify_bcb_target': dict(
+        self='Ref[CoseCtx]', params={'secop': 'Ref[SecOp]', 'result': 'Pkt[TypeValuePair]'}, returns='Opt[Int]', props=['C12'],
+        trusted=True, trusted_reason='the decryption of one target (pycose / cryptography): C16; catches its own '
+                                     'exceptions, may replace the target block data on acceptance, returns None or FAILED_SEC',
+        modifies=['ghost.tgt_last_failed', 'pkt:CanonicalBlock.btsd', 'ghost.crc_ok'],
+        ensures=[('verdict', 'ghost.tgt_last_failed == (result is not None) and '
+                             'implies(result is not None, unwrap(result) >= 12 and unwrap(result) <= 16)')]),
+})
